@@ -694,3 +694,16 @@ pub fn identify_empty(p: &mut Projection) {
         }
     }
 }
+
+/// Open `dir` first in a *fresh process* (a restarted server is a new process: start-up code guarded
+/// by process-wide state runs there and only there). Returns false if that process could not open it.
+pub fn first_open_in_fresh_process(dir: &Path) -> bool {
+    let exe = match std::env::current_exe() {
+        Ok(e) => e,
+        Err(_) => return true,
+    };
+    match std::process::Command::new(exe).arg("first-open").arg(dir).stdout(std::process::Stdio::null()).stderr(std::process::Stdio::null()).status() {
+        Ok(st) => st.code() == Some(0),
+        Err(_) => true,
+    }
+}
